@@ -1021,6 +1021,30 @@ pub fn enc_tcp(src: &IpAddr, dst: &IpAddr, t: &Tcp) -> Vec<u8> {
     v[17] = c as u8;
     v
 }
+/// TCP segment with a caller-supplied options area (any bytes; padded with zeros to a multiple of 4 and cut
+/// at 40), valid checksum.  For adversarial option lists.
+pub fn enc_tcp_raw_opts(src: &IpAddr, dst: &IpAddr, t: &Tcp, raw_opts: &[u8]) -> Vec<u8> {
+    let mut o = raw_opts[..raw_opts.len().min(40)].to_vec();
+    while o.len() % 4 != 0 {
+        o.push(0);
+    }
+    let mut v = Vec::with_capacity(20 + o.len() + t.payload.len());
+    put16(&mut v, t.sport);
+    put16(&mut v, t.dport);
+    put32(&mut v, t.seq);
+    put32(&mut v, t.ack);
+    v.push((((20 + o.len()) / 4) as u8) << 4);
+    v.push(t.flags);
+    put16(&mut v, t.win);
+    put16(&mut v, 0);
+    put16(&mut v, t.urg);
+    v.extend_from_slice(&o);
+    v.extend_from_slice(&t.payload);
+    let c = inet_csum(&v, pseudo(src, dst, P_TCP, v.len()));
+    v[16] = (c >> 8) as u8;
+    v[17] = c as u8;
+    v
+}
 pub fn enc_udp(src: &IpAddr, dst: &IpAddr, sport: u16, dport: u16, payload: &[u8]) -> Vec<u8> {
     let mut v = Vec::with_capacity(8 + payload.len());
     put16(&mut v, sport);
